@@ -270,5 +270,7 @@ def write_evidence(ctx: Ctx, mod, nviol: int) -> None:
     ev = {"property_id": ctx.pid, "tier": ctx.tier, "seed": ctx.seed, "level": "proof", "coverage": cov,
           "assumptions": list(getattr(mod, "ASSUMPTIONS", [])) + ctx.assumptions,
           "wall_s": round(ctx.elapsed(), 2), "violations": nviol}
-    (VERIF / "evidence").mkdir(exist_ok=True)
-    (VERIF / "evidence" / f"{ctx.pid}.json").write_text(json.dumps(jsonable(ev), indent=1))
+    # runs against a deliberately modified /repo (seeded changes) must not overwrite the evidence of the real tree
+    evdir = Path(os.environ["VERIF_EVIDENCE_DIR"]) if os.environ.get("VERIF_EVIDENCE_DIR") else VERIF / "evidence"
+    evdir.mkdir(parents=True, exist_ok=True)
+    (evdir / f"{ctx.pid}.json").write_text(json.dumps(jsonable(ev), indent=1))
